@@ -51,7 +51,7 @@ VERIF = os.path.dirname(os.path.dirname(os.path.abspath(__file__)))
 # =============================================================================
 # step spec (string):   <outcome>[+hb][+ha]   |   nest[<o1>,<o2>,...]<outcome>[+hb][+ha]
 #   outcome in runlib.OUTCOMES; +hb / +ha: the before_step / after_step hook of this step
-#   raises RuntimeError (after printing its markers); nest[...]: the step body calls
+#   raises RuntimeError (after printing its markers); +kb / +ka: that hook raises KeyboardInterrupt; nest[...]: the step body calls
 #   context.execute_steps() with inner steps of the given outcomes, prints markers before
 #   and after that call, and then behaves like <outcome>.
 # marker:  @@<case idx>.s<k>t<j>[n<m>].<site>.<chan>@@
@@ -74,7 +74,8 @@ def parse_step_spec(spec):
         inner, s = s[5:].split("]", 1)
         nest = inner.split(",")
     parts = s.split("+")
-    return {"outcome": parts[0], "hb": "hb" in parts[1:], "ha": "ha" in parts[1:], "nest": nest}
+    return {"outcome": parts[0], "hb": "hb" in parts[1:], "ha": "ha" in parts[1:], "nest": nest,
+            "kb": "kb" in parts[1:], "ka": "ka" in parts[1:]}
 
 
 def canon_case(sw, prog, lg=None, fmt="file", feat2_from=None):
@@ -159,7 +160,7 @@ def _child_run_case(case, idx, scratch, orig_out, orig_err):
                 named.info(tok)
 
     # -- the program
-    items, nest_plan, hb, ha = [], {}, set(), set()
+    items, nest_plan, hb, ha, kb, ka = [], {}, set(), set(), set(), set()
     for k, sc in enumerate(case["prog"], 1):
         steps = []
         for j, spec in enumerate(sc, 1):
@@ -169,6 +170,10 @@ def _child_run_case(case, idx, scratch, orig_out, orig_err):
                 hb.add(sid)
             if p["ha"]:
                 ha.add(sid)
+            if p["kb"]:
+                kb.add(sid)
+            if p["ka"]:
+                ka.add(sid)
             if p["nest"] is not None:
                 lines = []
                 for m, o in enumerate(p["nest"], 1):
@@ -198,11 +203,15 @@ def _child_run_case(case, idx, scratch, orig_out, orig_err):
             emit("b", sid)
             if sid in hb:
                 raise RuntimeError("hook before_step raises")
+            if sid in kb:
+                raise KeyboardInterrupt()
         elif name == "after_step":
             sid = sid_of(args[0])
             emit("a", sid)
             if sid in ha:
                 raise RuntimeError("hook after_step raises")
+            if sid in ka:
+                raise KeyboardInterrupt()
         else:
             if name == "before_all":
                 if lg["uh"] == "before_all":
@@ -563,6 +572,20 @@ def run_real_runs(tier, rng):
 
 def replay_real_runs(case):
     return list(_run_batch([case]))[0]
+
+
+def _hook_interrupt_cases(tier):
+    cases = []
+    for sw in (SWITCHES if tier == "thorough" else ("111", "100", "010", "001", "000")):
+        for x in (["pass", "pass+kb", "pass"], ["pass+ka", "pass"], ["fail+ka"], ["pass+kb"]):
+            cases.append(canon_case(sw, [P, x, P]))
+        cases.append(canon_case(sw, [P, ["pass+kb"], P], fmt="stdout", feat2_from=3))
+    return cases
+
+
+def run_hook_interrupt(tier, rng):
+    for x in _run_batch(_hook_interrupt_cases(tier)):
+        yield x
 
 
 def _strict_cases(tier):
@@ -970,6 +993,14 @@ CHECKS = [
                  "before_scenario == at the next checkpoint after the scenario and no new handler is left; "
                  "(7) with log capture off records reach the user's handler / logging.lastResort in order; "
                  "(8) no exception leaves runner.run()"),
+    BoundedCheck(
+        "real-runs-hook-interrupt",
+        bound={"quick": "5 capture switch combinations x 5 three-scenario programs whose middle scenario has a "
+                        "before_step / after_step hook raising KeyboardInterrupt (after printing its markers)",
+               "thorough": "all 8 switch combinations x the same 5 programs"},
+        run=run_hook_interrupt, replay=replay_real_runs,
+        contract="real-runs (1)-(8) for runs interrupted from inside a step hook: in particular (4) after the step and "
+                 "after the run sys.stdout/sys.stderr are the original objects"),
     BoundedCheck(
         "real-runs-strict-root-logger",
         bound={"quick": "3 switch combinations x 2 two-scenario programs (one with a user handler installed in before_all)",
